@@ -706,6 +706,7 @@ static void run_cfg(int nt, const char *spec) {
      * costs more than it saves, 4 are enough (an explicit --workers wins) */
     if (!g_workers_cli) v_nworkers = (nt == 3 && !INJ) ? 4 : 16;
     esx_run(&model);
+        ESX_CYCLES(&model);
 }
 
 /* one behaviour of the "5^3" families: kind index 0..4 for task i with its fixed parameters */
